@@ -255,6 +255,77 @@ theorem chainClear_get (z : UInt64) (u : UInt64) (c c' : List Entry) (hu : u ≠
           · rfl
           · exact ih r' hr
 
+/-! ### mapping a unit that is already mapped (to the same work unit), then unmapping it once
+
+`ABTI_thread_set_associated_pool`, user pool → other user pool, maps the new unit before it
+unmaps the old one; both pools may hand out the same handle (e.g. the `ABT_thread` handle).
+The table then holds the unit twice for a moment; the unmap removes the first occurrence. -/
+
+theorem chainRemap_reuse (z : UInt64) (u : UInt64) (t : Nat) (c c1 c2 : List Entry) (hu : u ≠ z)
+    (hnd : (units z c).Nodup) (hg : chainGet u c = some t)
+    (h1 : chainReuse z u t c = some c1) (h2 : chainClear z u c1 = some c2) :
+    (∀ x, x ≠ z → chainGet x c2 = chainGet x c) ∧ (∀ x, x ∈ units z c2 ↔ x ∈ units z c) ∧
+    (units z c2).Nodup ∧ c2.length = c.length := by
+  induction c generalizing c1 c2 with
+  | nil => simp [chainReuse] at h1
+  | cons e r ih =>
+    simp only [chainReuse] at h1
+    by_cases hez : e.unit = z
+    · -- the head is a tombstone: it takes the unit, and is cleared again
+      simp only [hez, if_true, Option.some.injEq] at h1; subst h1
+      simp only [chainClear, if_true, Option.some.injEq] at h2; subst h2
+      refine ⟨?_, ?_, ?_, rfl⟩
+      · intro x hx
+        have h0 : ¬ z = x := fun y => hx y.symm
+        have h3 : ¬ e.unit = x := by rw [hez]; exact h0
+        simp [chainGet, h0, h3]
+      · intro x; rw [units_cons z, units_cons z]; simp [hez]
+      · rw [units_cons z] at hnd ⊢; simpa [hez] using hnd
+    · simp only [hez, if_false] at h1
+      cases hr : chainReuse z u t r with
+      | none => simp [hr] at h1
+      | some r1 =>
+        simp only [hr, Option.some.injEq] at h1; subst h1
+        rw [units_cons z] at hnd
+        simp only [hez, if_false, List.nodup_cons] at hnd
+        by_cases heu : e.unit = u
+        · -- the old element comes first: it is cleared, the reused tombstone keeps the unit
+          simp only [chainClear, heu, if_true, Option.some.injEq] at h2; subst h2
+          have hnr : u ∉ units z r := by rw [← heu]; exact hnd.1
+          have het : e.thr = t := by simpa [chainGet, heu] using hg
+          refine ⟨?_, ?_, ?_, ?_⟩
+          · intro x hx
+            have h0 : ¬ z = x := fun y => hx y.symm
+            simp only [chainGet, h0, if_false]
+            rw [chainReuse_get z u t r r1 hu hnr hr x hx]
+            by_cases hxu : x = u
+            · subst hxu; simp [heu, het]
+            · have : ¬ e.unit = x := by rw [heu]; exact fun y => hxu y.symm
+              simp [hxu, this]
+          · intro x
+            rw [units_cons z, units_cons z]
+            simp only [if_true, hez, if_false, List.mem_cons]
+            rw [chainReuse_units z u t r r1 hu hr x, heu]
+          · rw [units_cons z]; simp only [if_true]
+            exact chainReuse_nodup z u t r r1 hu hnd.2 hnr hr
+          · simp [chainReuse_length z u t r r1 hr]
+        · simp only [chainClear, heu, if_false] at h2
+          cases hc : chainClear z u r1 with
+          | none => simp [hc] at h2
+          | some r2 =>
+            simp only [hc, Option.some.injEq] at h2; subst h2
+            have hg' : chainGet u r = some t := by simpa [chainGet, heu] using hg
+            obtain ⟨a1, a2, a3, a4⟩ := ih r1 r2 hnd.2 hg' hr hc
+            refine ⟨?_, ?_, ?_, by simp [a4]⟩
+            · intro x hx
+              simp only [chainGet]
+              split
+              · rfl
+              · exact a1 x hx
+            · intro x; rw [units_cons z, units_cons z]; simp only [hez, if_false, List.mem_cons, a2 x]
+            · rw [units_cons z]; simp only [hez, if_false, List.nodup_cons]
+              exact ⟨by rw [a2]; exact hnd.1, a3⟩
+
 /-! ### table level -/
 
 structure WF (m : UM) : Prop where
@@ -406,5 +477,104 @@ theorem unmap_spec (m : UM) (u : UInt64) (hw : WF m) (hu : u ≠ m.nul) (hm : ab
     · intro i; simp only [updB]; split
       · next hi => rw [chainClear_length m.nul u _ c hr, hi]
       · rfl
+
+/-- `unit_map_thread(u, t)` while `u` is already mapped to the same work unit `t`, followed by one
+`unit_unmap_thread(u)` (what a move between two user pools that share a handle does): the map
+fails only for lack of memory (no tombstone in the bucket and `malloc` fails), otherwise the
+unmap succeeds, the table is well formed again and represents the same finite map -/
+theorem remap_spec (m : UM) (u : UInt64) (t : Nat) (mem : Bool) (hw : WF m) (hu : u ≠ m.nul)
+    (hm : absMap m u = some t) :
+    (mem = true → (mapThread m u t mem).isSome = true) ∧
+    ∀ m1, mapThread m u t mem = some m1 →
+      ∃ m2, unmapThread m1 u = some m2 ∧ WF m2 ∧ (m2.exp = m.exp ∧ m2.nul = m.nul) ∧
+        (∀ x, absMap m2 x = absMap m x) ∧ (∀ i, (m.b i).length ≤ (m2.b i).length) := by
+  have hg : chainGet u (m.b (hashIndex m.exp u)) = some t := by
+    simpa [absMap, hu, getThread] using hm
+  have habs : ∀ (m2 : UM), m2.exp = m.exp → m2.nul = m.nul →
+      (∀ i, i ≠ hashIndex m.exp u → m2.b i = m.b i) →
+      (∀ x, x ≠ m.nul → chainGet x (m2.b (hashIndex m.exp u)) = chainGet x (m.b (hashIndex m.exp u))) →
+      ∀ x, absMap m2 x = absMap m x := by
+    intro m2 he hn hb hc x
+    simp only [absMap, getThread, he, hn]
+    by_cases hx : x = m.nul
+    · simp [hx]
+    · simp only [hx, if_false]
+      by_cases hi : hashIndex m.exp x = hashIndex m.exp u
+      · rw [hi]; exact hc x hx
+      · rw [hb _ hi]
+  simp only [mapThread]
+  cases hr : chainReuse m.nul u t (m.b (hashIndex m.exp u)) with
+  | some c1 =>
+    refine ⟨fun _ => rfl, ?_⟩
+    intro m1 h1
+    simp only [Option.some.injEq] at h1; subst h1
+    have hin : u ∈ units m.nul c1 := by
+      rw [chainReuse_units m.nul u t _ c1 hu hr]; exact Or.inl rfl
+    simp only [unmapThread, updB, if_true]
+    cases hc : chainClear m.nul u c1 with
+    | none => exact absurd hin ((chainClear_none m.nul u c1 hu).mp hc)
+    | some c2 =>
+      obtain ⟨a1, a2, a3, a4⟩ := chainRemap_reuse m.nul u t _ c1 c2 hu (hw.nodup _) hg hr hc
+      have hb2 : updB (updB m.b (hashIndex m.exp u) c1) (hashIndex m.exp u) c2 =
+          fun j => if j = hashIndex m.exp u then c2 else m.b j := by
+        funext j; simp only [updB]; split <;> simp_all
+      simp only [hb2]
+      refine ⟨_, rfl, ⟨?_, ?_⟩, ⟨rfl, rfl⟩, ?_, ?_⟩
+      · intro i x hx
+        simp only at hx
+        split at hx
+        · next hi => rw [a2] at hx; rw [hi]; exact hw.hash_ok _ x hx
+        · exact hw.hash_ok i x hx
+      · intro i
+        simp only
+        split
+        · exact a3
+        · exact hw.nodup i
+      · apply habs { exp := m.exp, nul := m.nul, b := fun j => if j = hashIndex m.exp u then c2 else m.b j } rfl rfl
+        · intro i hi; simp [hi]
+        · intro x hx; simp only [if_true]; exact a1 x hx
+      · intro i
+        simp only
+        split
+        · next hi => rw [a4, hi]; exact Nat.le_refl _
+        · exact Nat.le_refl _
+  | none =>
+    cases mem with
+    | false => simp
+    | true =>
+      refine ⟨fun _ => rfl, ?_⟩
+      intro m1 h1
+      simp only [if_true, Option.some.injEq] at h1; subst h1
+      simp only [unmapThread, updB, if_true, chainClear]
+      have hb2 : updB (updB m.b (hashIndex m.exp u) (({ unit := u, thr := t } : Entry) :: m.b (hashIndex m.exp u)))
+            (hashIndex m.exp u) (({ unit := m.nul, thr := t } : Entry) :: m.b (hashIndex m.exp u)) =
+          fun j => if j = hashIndex m.exp u then
+              ({ unit := m.nul, thr := t } : Entry) :: m.b (hashIndex m.exp u) else m.b j := by
+        funext j; simp only [updB]; split <;> simp_all
+      simp only [hb2]
+      refine ⟨_, rfl, ⟨?_, ?_⟩, ⟨rfl, rfl⟩, ?_, ?_⟩
+      · intro i x hx
+        simp only at hx
+        split at hx
+        · next hi =>
+          rw [units_cons m.nul] at hx; simp only [if_true] at hx
+          rw [hi]; exact hw.hash_ok _ x hx
+        · exact hw.hash_ok i x hx
+      · intro i
+        simp only
+        split
+        · rw [units_cons m.nul]; simp only [if_true]; exact hw.nodup _
+        · exact hw.nodup i
+      · apply habs { exp := m.exp, nul := m.nul, b := fun j => if j = hashIndex m.exp u then
+              ({ unit := m.nul, thr := t } : Entry) :: m.b (hashIndex m.exp u) else m.b j } rfl rfl
+        · intro i hi; simp [hi]
+        · intro x hx
+          have h0 : ¬ m.nul = x := fun y => hx y.symm
+          simp [chainGet, h0]
+      · intro i
+        simp only
+        split
+        · next hi => rw [hi]; simp
+        · exact Nat.le_refl _
 
 end ArgoVerif.Model.UnitMap
